@@ -1,6 +1,115 @@
-//! C14: implementation-side case runners (see props/c14.py). Stub until the property is built.
+//! C14: sixel decoding (Sixel::parse_from) and the decode queue (execute_dcs + update_sixel_threads),
+//! the latter driven through the cfg(icy_engine_verif) gate so that completion order is chosen by the case.
+use crate::util::unhex;
 use crate::Obs;
+use icy_engine::{ansi, Buffer, BufferParser, Caret, ParserError, Position, Sixel};
 
-pub fn run(_kind: &str, _args: &[&str]) -> Option<Obs> {
-    None
+fn err_code(e: &anyhow::Error) -> i64 {
+    match e.downcast_ref::<ParserError>() {
+        Some(ParserError::InvalidColorInSixelSequence) => 1,
+        Some(ParserError::UnsupportedSixelColorformat(_)) => 2,
+        Some(ParserError::InvalidPictureSize) => 3,
+        Some(ParserError::NumberMissingInSixelRepeat) => 4,
+        Some(ParserError::InvalidSixelChar(_)) => 5,
+        _ => 99,
+    }
+}
+
+fn decode(payload: &str, shape_only: bool) -> Vec<i64> {
+    match Sixel::parse_from(Position::new(0, 0), 1, 1, [0, 0, 0, 0], payload) {
+        Ok(s) => {
+            let mut v = vec![0, s.get_width() as i64, s.get_height() as i64, s.picture_data.len() as i64];
+            if shape_only {
+                v.extend(s.picture_data.iter().skip(3).step_by(4).map(|b| *b as i64));
+            } else {
+                v.extend(s.picture_data.iter().map(|b| *b as i64));
+            }
+            v
+        }
+        Err(e) => vec![1, err_code(&e)],
+    }
+}
+
+/// args: fw-ignored… `<k> (<px> <py> <payload-hex>)*k  <events…>` events: 0 Arrive (next image), 1 Poll, 2+id Finish id
+fn queue(args: &[&str]) -> Obs {
+    let k: usize = args[0].parse().unwrap();
+    let mut imgs = Vec::new();
+    for i in 0..k {
+        let px: i32 = args[1 + 3 * i].parse().unwrap();
+        let py: i32 = args[2 + 3 * i].parse().unwrap();
+        let payload = String::from_utf8(unhex(args[3 + 3 * i])).unwrap();
+        imgs.push((px, py, payload));
+    }
+    let evs: Vec<usize> = args[1 + 3 * k..].iter().map(|s| s.parse().unwrap()).collect();
+    let mut buf = Buffer::new((80, 25));
+    buf.is_terminal_buffer = true;
+    let mut caret = Caret::default();
+    let mut parser = ansi::Parser::default();
+    icy_engine::verif_hooks::sixel_gate_enable(true);
+    let mut out: Vec<i64> = Vec::new();
+    let mut arrived = 0usize;
+    let mut finished = vec![false; k];
+    let font = buf.get_font_dimensions();
+    let mut feed = |buf: &mut Buffer, caret: &mut Caret, s: &str| -> Result<(), String> {
+        for ch in s.chars() {
+            parser.print_char(buf, 0, caret, ch).map_err(|e| format!("parser:{e}"))?;
+        }
+        Ok(())
+    };
+    for e in evs {
+        match e {
+            0 => {
+                let (px, py, payload) = &imgs[arrived];
+                feed(&mut buf, &mut caret, &format!("\x1b[{};{}H\x1bPq{}\x1b\\", py + 1, px + 1, payload))?;
+                arrived += 1;
+            }
+            1 => {
+                let r = buf.update_sixel_threads();
+                let code = match r {
+                    Ok(false) => 0,
+                    Ok(true) => 1,
+                    Err(_) => 2,
+                };
+                out.push(code);
+                out.push(buf.sixel_threads.len() as i64);
+                out.push(buf.layers[0].sixels.len() as i64);
+                for s in &buf.layers[0].sixels {
+                    let r = s.get_screen_rect(font);
+                    out.extend([r.start.x as i64, r.start.y as i64, r.size.width as i64, r.size.height as i64]);
+                }
+            }
+            n => {
+                let id = n - 2;
+                if id >= arrived || finished[id] {
+                    continue;
+                }
+                finished[id] = true;
+                icy_engine::verif_hooks::sixel_gate_release(&imgs[id].2);
+                // wait until that decode thread has really finished: its handle is at index id - popped
+                let popped = arrived - buf.sixel_threads.len();
+                if id >= popped {
+                    let idx = id - popped;
+                    let t0 = std::time::Instant::now();
+                    while !buf.sixel_threads[idx].is_finished() {
+                        std::thread::sleep(std::time::Duration::from_micros(200));
+                        if t0.elapsed().as_secs() > 4 {
+                            icy_engine::verif_hooks::sixel_gate_enable(false);
+                            return Err("decode-thread-did-not-finish".to_string());
+                        }
+                    }
+                }
+            }
+        }
+    }
+    icy_engine::verif_hooks::sixel_gate_enable(false);
+    Ok(out)
+}
+
+pub fn run(kind: &str, args: &[&str]) -> Option<Obs> {
+    Some(match kind {
+        "sixel" => Ok(decode(&String::from_utf8(unhex(args[0])).unwrap(), false)),
+        "sixelshape" => Ok(decode(&String::from_utf8(unhex(args[0])).unwrap(), true)),
+        "sixelq" => queue(args),
+        _ => return None,
+    })
 }
